@@ -57,7 +57,7 @@ func genUDPCase(r *Rng, prop string) udpCaseSpec {
 			expired = true
 			continue
 		}
-		if i > 1 && r.Chance(7) {
+		if i > 1 && r.Chance(14) {
 			// a datagram to some client's NAT socket from a sender the client never addressed:
 			// it must reach that client (with the sender's address) and nobody else
 			prev := cs.Ops[r.Intn(len(cs.Ops))]
@@ -196,7 +196,7 @@ func cUDPInto(ctx *Ctx, prop string, n int, shard int) {
 				ctx.Count("report:" + j.obs[i].Report.Status)
 			}
 		}
-		udpMonitors(ctx, prop, &j.spec, j.obs, j.shut)
+		udpMonitors(ctx, prop, &j.spec, j.obs, j.shut, j.tports)
 		if fw > 0 && rej > 0 {
 			ctx.NonTrivial(fmt.Sprintf("%+v", j.spec))
 		}
@@ -218,7 +218,16 @@ func cUDPInto(ctx *Ctx, prop string, n int, shard int) {
 }
 
 // udpMonitors: the properties themselves on the implementation's observables.
-func udpMonitors(ctx *Ctx, prop string, cs *udpCaseSpec, obs []udpOpObs, shutdownRemoved int) {
+// senderAddr: the SOCKS form of a local sender address (IPv4 senders in 7 bytes, IPv6 in 19)
+func senderAddr(ip string, port int) []byte {
+	p := net.ParseIP(ip)
+	if v4 := p.To4(); v4 != nil {
+		return append(append([]byte{1}, v4...), byte(port>>8), byte(port))
+	}
+	return append(append([]byte{4}, p.To16()...), byte(port>>8), byte(port))
+}
+
+func udpMonitors(ctx *Ctx, prop string, cs *udpCaseSpec, obs []udpOpObs, shutdownRemoved int, tports []int) {
 	inCfg := func(c, s int) (bool, string) {
 		for _, k := range cs.Cfg {
 			if k.C == c && k.S == s {
@@ -260,8 +269,8 @@ func udpMonitors(ctx *Ctx, prop string, cs *udpCaseSpec, obs []udpOpObs, shutdow
 			if a := live[op.Client]; a != nil && a.c == op.C && a.s == op.S {
 				if len(ob.Replies) != 1 || ob.Replies[0].Status != "OK" || !bytes.Equal(ob.Replies[0].Body, genBytes(op.PLen, uint32(op.PSeed))) {
 					ctx.Monitor("C04/datagram-from-other-sender-not-delivered", fmt.Sprintf("a datagram from another sender to the client's NAT socket was not delivered intact (%d reports)", len(ob.Replies)), rep)
-				} else if want := map[bool]int{false: 7, true: 19}[op.StrayV6]; len(ob.Replies[0].From) != want {
-					ctx.Monitor("C03/reply-sender-address", fmt.Sprintf("reply carries a %d-byte sender address, expected %d", len(ob.Replies[0].From), want), rep)
+				} else if want := senderAddr(targetKinds[op.StrayK].ip, op.sport); !bytes.Equal(ob.Replies[0].From, want) {
+					ctx.Monitor("C03/reply-sender-address", fmt.Sprintf("a datagram from %v was relayed with the sender address %v", want, ob.Replies[0].From), rep)
 				}
 			}
 			ctx.Count("op:stray")
@@ -365,6 +374,8 @@ func udpMonitors(ctx *Ctx, prop string, cs *udpCaseSpec, obs []udpOpObs, shutdow
 				}
 				if len(rp.From) != wantLen {
 					ctx.Monitor("C03/reply-sender-address", fmt.Sprintf("reply carries a %d-byte sender address, expected %d", len(rp.From), wantLen), rep)
+				} else if want := senderAddr(targetKinds[op.AKind].ip, tports[op.AKind]); !bytes.Equal(rp.From, want) {
+					ctx.Monitor("C03/reply-sender-address", fmt.Sprintf("reply carries the sender address %v, the true sender is %v", rp.From, want), rep)
 				}
 				if rp.TB != int64(len(want)) {
 					ctx.Monitor("C16/target-bytes", fmt.Sprintf("AddPacketFromTarget reports %d payload bytes, target sent %d", rp.TB, len(want)), rep)
